@@ -446,7 +446,10 @@ def _position(r, p, cg):
 
 
 def _order(r, p):
-    main = p.function("vsg.__main__:main")
+    from ..model import inline_helpers
+
+    # the per-file record / print block may live in a helper of __main__ (extract-function refactoring)
+    main = inline_helpers(p, p.function("vsg.__main__:main"), toward={"print"})
     fn = main.node
     # the callable
     part = [n for n in walk_function(fn) if isinstance(n, ast.Assign) and isinstance(n.value, ast.Call) and callee_text(n.value) == "functools.partial"]
